@@ -213,6 +213,14 @@ def handle : Sexp → Option Sexp
         .list (ps.map fun t => .list [ofBool (PS.G.contains G1 t), ofBool (PS.G.contains G2 t),
           ofBool (PS.G.contains GI t), ofBool (inLang raw t)]),
         encOptNat (programsR GI fuel)])
+  -- certificate check: a ranking of the types for `at_most_k` (hypothesis of C13_atmost_total_partial)
+  | .list [.atom "c13.ranked", d, name, .list rk] => do
+      let dsl ← decDsl d
+      let name ← name.string?
+      let rkT ← allSome (fun e => match e with
+        | .list [t, n] => do pure ((← decTy t), (← n.nat?))
+        | _ => none) rk
+      pure (ofBool (uncountedRanked dsl name rkT))
   -- clean / programs of an arbitrary table with opaque states
   | .list [.atom "c13.clean", g, fuel] => do
       let G ← decTTg strC strC g
